@@ -29,6 +29,8 @@ def pieces(S):
 def run(ctx):
     from shapepy import Primitive
     rng, drv = ctx.rng, ctx.drv
+    from harness import degen
+    degen.evaluate(ctx, "measure")      # deterministic non-transversal corpus (findings K2-*)
     n = 16 if ctx.quick else 2000
     for it in range(n):
         if it % 2 == 0:
